@@ -101,7 +101,7 @@ def judge(c):
                  (c["hotcap"], c["hotrate"]), (c["coldcap"], c["coldrate"]),
                  c["arrays"], c["max_ingest"])
     base["sysbw"] = c["sysbw"]
-    out = []
+    out = list(judge_ratelimit(base, u))
     orders = ORDERS if c.get("orders", True) else ORDERS[:1]
     for order in orders:
         for clause, cause, det in judge_order(c, base, u, f, order):
@@ -114,6 +114,35 @@ def judge(c):
             seen.add((v[0], v[1]))
             res.append(v)
     return res
+
+
+def judge_ratelimit(base, u):
+    """the rate-limit comparison itself (the real hot buffer accepting or
+    rejecting one timestep of the real parsed observation rate) must come
+    out the same in seconds and in the unit"""
+    res = {}
+    for unit in ("seconds", u):
+        try:
+            cfg = Config(_path(dict(base, timestep=unit)))
+            _, _, observations, _ = cfg.parse_instrument_config("telescope")
+            hot, _ = cfg.parse_buffer_config()
+            verdicts = []
+            for o in observations:
+                hb = hot[0]
+                try:
+                    hb.process_incoming_data_stream(o.ingest_data_rate, 0)
+                    verdicts.append("accepted")
+                except ValueError:
+                    verdicts.append("rejected")
+            res[unit] = verdicts
+        except Exception as e:
+            return [("C16.parses", "parse-raised:%s" % type(e).__name__,
+                     {"error": repr(e)})]
+    if res["seconds"] != res[u]:
+        return [("C16.cross-section",
+                 "hot-buffer-rate-check-depends-on-unit",
+                 {"seconds": res["seconds"], "unit": res[u]})]
+    return []
 
 
 def judge_order(c, base, u, f, order):
@@ -193,7 +222,7 @@ def domain(tier):
     else:
         starts = [(0, 1), (3, 7)]
         durs = [(1, 1), (2, 5)]
-        rates = [1, 3]
+        rates = [1, 2, 3, 4]
         hr = [(1, 1), (3, 2), (5, 10)]
         cpus = [(1, 1), (2, 3), (84, 10)]
         caps = [(10, 10), (500, 250)]
